@@ -16,6 +16,8 @@ int snoopy_tsrm_get_threadCount(void) { return 1; }
 void snoopy_init(void); void snoopy_cleanup(void);
 void snoopy_configuration_preinit_disableConfigFileParsing(void);
 
+int __lsan_do_recoverable_leak_check(void) __attribute__((weak));
+
 static void walk(list_t *l, FILE *out, listNode_t **nodes, size_t *n) {
     listNode_t *cur = NULL; size_t k = 0; int first = 1;
     while (NULL != (cur = snoopy_util_list_fetchNextNode(l, cur))) {
@@ -60,6 +62,9 @@ static void handle(int nf, char **f, FILE *out) {
     size_t n = 0; walk(&L, NULL, nodes, &n);
     for (size_t i = n; i-- > 0;) if (i < 4096) snoopy_util_list_remove(&L, nodes[i]);
     snoopy_cleanup();
+    /* every node the list allocated must have been freed by now (LeakSanitizer, when the run enables it) */
+    memset(nodes, 0, sizeof nodes);
+    if (__lsan_do_recoverable_leak_check && __lsan_do_recoverable_leak_check()) fputs("\tLEAK", out);
 }
 
 int main(void) { return run_cases(stdin, handle, 10); }
